@@ -158,3 +158,19 @@ func vh_C16_L4_gap_fill_at_zero_window() { vh_C11_L2_credit_and_full_buffer() }
 
 func vh_C16_L4_clear_range_across_wrap() { vh_C05_step_clear_range() }
 func vh_C16_L4_failed_write_rollback_at_wrap() { vh_C18_L2_block_write_gate() }
+
+// C16.L5: loss-detection state does not depend on where the TSN space starts. Two chunks in
+// flight at a symbolic TSN base, both original transmissions; a SACK acknowledges the first,
+// then one acknowledges the second: acknowledgements arriving in transmission order are not
+// reordering, so the RACK reordering flag stays clear at every base.
+func vh_C16_L5_rack_state_independent_of_tsn_base() {
+	f := vInFlight(2, false)
+	a := f.a
+	vassert(!a.rackReorderingSeen, "no reordering seen on a fresh association")
+	vassert(vDeliver(a, &chunkSelectiveAck{cumulativeTSNAck: f.base + 1, advertisedReceiverWindowCredit: 1 << 20}) == nil, "SACK ok")
+	vassert(!a.rackReorderingSeen, "the first in-order acknowledgement is not reordering, whatever the initial TSN")
+	vassert(vDeliver(a, &chunkSelectiveAck{cumulativeTSNAck: f.base + 2, advertisedReceiverWindowCredit: 1 << 20}) == nil, "SACK ok")
+	vassert(!a.rackReorderingSeen, "nor is the second")
+	vassert(a.rackHighestDeliveredOrigTSN == f.base+2, "the high-water mark of delivered original TSNs follows the acknowledgements")
+	vcover("end")
+}
